@@ -8,9 +8,11 @@
      -> (ok (frames ((cols) (index) (row ...)) ...)) | (ok (nat n)) | (fail Error)     a row is an int, or () when never written
      (py_slice LEN START STOP STEP) -> (ok (positions ...)) | (fail ValueError)
      (py_pick LEN I) -> (ok pos) | (fail IndexError)
+     (np_slice LEN LO HI) -> (START N)                     PyPrelude.np_slice: numpy basic slicing v[LO:HI] of a length-LEN array
+     (write_slice LO HI (x ...) (cell ...)) -> (ok (cell ...)) | (fail ShapeError)   cell = () unwritten or (x); PyPrelude.write_slice
      (spec_prog ...) same arguments as read_prog with PARTS = ((rowid ...) ...) in place of RGS: ReadSpec.spec_run    *)
 From Coq Require Import NArith ZArith List String Bool.
-From Pq Require Import Base.Bytes Extract.Sx Dataset.Read Dataset.ReadSpec.
+From Pq Require Import Base.Bytes Extract.Sx Dataset.Read Dataset.ReadSpec Dataset.PyPrelude.
 Import ListNotations.
 Open Scope string_scope.
 
@@ -137,5 +139,30 @@ Definition h_py_pick (a : list sx) : sx :=
   | _ => Sx.err "arity"
   end.
 
+Definition h_np_slice (a : list sx) : sx :=
+  match a with
+  | [len; lo; hi] =>
+    match as_Z len, as_Z lo, as_Z hi with
+    | Some l, Some x, Some y => let '(st, n) := np_slice l x y in SL [SZ st; SZ n]
+    | _, _, _ => Sx.err "args"
+    end
+  | _ => Sx.err "arity"
+  end.
+
+Definition h_write_slice (a : list sx) : sx :=
+  match a with
+  | [lo; hi; xs; out] =>
+    match as_Z lo, as_Z hi, as_list_of as_N xs, as_list_of (as_opt as_N) out with
+    | Some x, Some y, Some xs, Some out =>
+      match write_slice x y xs out with
+      | Some r => SL [S_ "ok"; slist (sopt sN) r]
+      | None => s_err ShapeError
+      end
+    | _, _, _, _ => Sx.err "args"
+    end
+  | _ => Sx.err "arity"
+  end.
+
 Definition table : list (string * handler) :=
-  [("read_prog", h_read_prog); ("spec_prog", h_spec_prog); ("py_slice", h_py_slice); ("py_pick", h_py_pick)].
+  [("read_prog", h_read_prog); ("spec_prog", h_spec_prog); ("py_slice", h_py_slice); ("py_pick", h_py_pick);
+   ("np_slice", h_np_slice); ("write_slice", h_write_slice)].
